@@ -75,15 +75,15 @@ def stitch_switch(t, site, uplinks):
     return sw, sf, ports
 
 
-def _isolated_stitch_node(t):
-    # a stitching element without any connection inside the model (a shared exchange point nothing is attached to yet)
-    t.add_node(name='iso-x', node_id='iso-x', site='X', ntype=NodeType.Switch, stitch_node=True)
+def _isolated_stitch_node(adm):
+    # a stitching element without any connection inside the model (a shared exchange point nothing is attached to yet);
+    # written into the delegation model itself, so that the family does not depend on how the partitioner treats it
+    adm.add_node(node_id='iso-x', label='NetworkNode',
+                 props={'Name': 'iso-x', 'Type': 'Switch', 'Site': 'X', 'StitchNode': 'true'})
 
 
 def site_adm(site, adm_id, iso=False):
     t = SubstrateTopology()
-    if iso:
-        _isolated_stitch_node(t)
     sw, sf, ports = stitch_switch(t, site, (1, 2))
     inner = sf.add_interface(name=f'{site}-sw-p0', node_id=f'{site}-sw-p0', itype=InterfaceType.TrunkPort, capacities=Capacities(bw=100))
     w = t.add_node(name=f'{site}-w0', node_id=f'{site}-w0', site=site, ntype=NodeType.Server, capacities=Capacities(core=32, ram=64))
@@ -95,14 +95,14 @@ def site_adm(site, adm_id, iso=False):
         annotate(arm, n, 'LC@d1')
     adms = arm.generate_adms(delegation_guids={'d1': adm_id})
     arm.delete_graph()
+    if iso:
+        _isolated_stitch_node(adms['d1'])
     return adms['d1']
 
 
 def network_adm(name, adm_id, ends, kinds=None, extra=False, iso=False):
     """ends: list of (site, uplink) shared with site models, plus an own exchange switch when ends has one member"""
     t = SubstrateTopology()
-    if iso:
-        _isolated_stitch_node(t)
     ps = []
     for site, u in ends:
         _, _, ports = stitch_switch(t, site, (1, 2))
@@ -121,6 +121,8 @@ def network_adm(name, adm_id, ends, kinds=None, extra=False, iso=False):
         arm.update_node_property(node_id=ps[0].node_id, prop_name='Details', prop_val=f'as seen from {name}')
     adms = arm.generate_adms(delegation_guids={'d1': adm_id})
     arm.delete_graph()
+    if iso:
+        _isolated_stitch_node(adms['d1'])
     return adms['d1']
 
 
